@@ -365,4 +365,171 @@ Section Proofs.
       intros [= <- <-]. inversion Hs as [|? ? H1 H2]; subst.
       exact (IH _ _ _ (step_inv _ _ _ _ _ I H1 S) H2 R).
   Qed.
+
+  (* ---------- refinement to the recency-list specification ---------- *)
+  Definition item_of (e : entry) : @item K V := (e_key e, e_val e, e_weight e).
+  Definition abs (c : cache) : lru K V :=
+    mkLru (map item_of (rev (c_entries c))) (c_max_weight c) (c_max_size c).
+
+  Lemma total_items (l : list entry) : total (map item_of l) = sumw l.
+  Proof. induction l as [|e l IH]; [reflexivity|]. cbn [map total fold_right]. fold (total (map item_of l)). rewrite IH. reflexivity. Qed.
+
+  Lemma fits_over mw ms (old : list entry) :
+    fits mw ms (map item_of old) = negb (over mw ms (length old) (sumw old)).
+  Proof. unfold fits, over. rewrite total_items, map_length. lia. Qed.
+
+  Lemma trim_evict mw ms (old : list entry) :
+    sumw old < two64 ->
+    trim mw ms (map item_of old) =
+      (map item_of (ev_log (evict_loop mw ms old (sumw old))),
+       map item_of (ev_kept (evict_loop mw ms old (sumw old)))).
+  Proof.
+    induction old as [|e rest IH]; intros Hs; [reflexivity|].
+    cbn [map trim evict_loop]. change (item_of e :: map item_of rest) with (map item_of (e :: rest)).
+    rewrite fits_over. destruct (over mw ms (length (e :: rest)) (sumw (e :: rest))) eqn:Ho; cbn [negb].
+    - assert (Hw : wsub (sumw (e :: rest)) (e_weight e) = sumw rest).
+      { rewrite sumw_cons in *. rewrite wsub_exact; lia. }
+      rewrite Hw. rewrite sumw_cons in Hs. rewrite IH by lia. reflexivity.
+    - reflexivity.
+  Qed.
+
+  Lemma find_all_false {A} (f : A -> bool) (l : list A) : (forall x, In x l -> f x = false) -> find f l = None.
+  Proof.
+    induction l as [|x l IH]; intros H; [reflexivity|]. cbn [find]. rewrite (H x (or_introl eq_refl)).
+    apply IH. intros y Hy. apply H. right. exact Hy.
+  Qed.
+  Lemma find_app {A} (f : A -> bool) (a b : list A) :
+    find f (a ++ b) = match find f a with Some x => Some x | None => find f b end.
+  Proof. induction a as [|x a IH]; [reflexivity|]. cbn [app find]. destruct (f x); [reflexivity | exact IH]. Qed.
+  Lemma filter_all_true {A} (f : A -> bool) (l : list A) : (forall x, In x l -> f x = true) -> filter f l = l.
+  Proof.
+    induction l as [|x l IH]; intros H; [reflexivity|]. cbn [filter]. rewrite (H x (or_introl eq_refl)).
+    f_equal. apply IH. intros y Hy. apply H. right. exact Hy.
+  Qed.
+
+  Lemma key_test_items k (l : list entry) :
+    ~ In k (ekeys l) -> forall it, In it (map item_of (rev l)) -> keqb k (i_key it) = false.
+  Proof.
+    intros Hn it Hi. apply in_map_iff in Hi. destruct Hi as (e & <- & He). apply in_rev in He.
+    apply keqb_false. intros ->. apply Hn. unfold ekeys. apply in_map_iff. exists e. split; [reflexivity | exact He].
+  Qed.
+
+  Lemma lookup_rev k (l : list entry) :
+    NoDup (ekeys l) ->
+    lookup keqb k (map item_of (rev l)) = option_map item_of (find_entry keqb k l).
+  Proof.
+    intros Hd. unfold lookup. destruct (find_entry keqb k l) as [e|] eqn:F; cbn [option_map].
+    - destruct (find_split _ _ _ F) as (a & b & -> & _ & Hn).
+      destruct (find_entry_some _ _ _ F) as [_ Hk].
+      rewrite ekeys_app in Hd. cbn [ekeys map] in Hd. rewrite Hk in Hd.
+      destruct (nodup_split_notin _ _ _ Hd) as (H1 & H2 & _).
+      rewrite rev_app_distr. cbn [rev]. rewrite <- app_assoc. cbn [app]. rewrite map_app, find_app.
+      rewrite (find_all_false _ _ (key_test_items k b H2)).
+      cbn [map find]. change (i_key (item_of e)) with (e_key e). rewrite Hk, keqb_refl. reflexivity.
+    - apply find_entry_none in F. apply find_all_false. exact (key_test_items k l F).
+  Qed.
+
+  Lemma without_rev k (l : list entry) :
+    NoDup (ekeys l) ->
+    without keqb k (map item_of (rev l)) = map item_of (rev (remove_key keqb k l)).
+  Proof.
+    intros Hd. unfold without.
+    assert (Hall : forall m : list entry, ~ In k (ekeys m) ->
+              filter (fun it : item => negb (keqb k (i_key it))) (map item_of (rev m)) = map item_of (rev m)).
+    { intros m Hm. apply filter_all_true. intros it Hi. rewrite (key_test_items k m Hm it Hi). reflexivity. }
+    destruct (find_entry keqb k l) as [e|] eqn:F.
+    - destruct (find_split _ _ _ F) as (a & b & -> & -> & Hn).
+      destruct (find_entry_some _ _ _ F) as [_ Hk].
+      rewrite ekeys_app in Hd. cbn [ekeys map] in Hd. rewrite Hk in Hd.
+      destruct (nodup_split_notin _ _ _ Hd) as (H1 & H2 & _).
+      rewrite !rev_app_distr. cbn [rev]. rewrite <- app_assoc. cbn [app].
+      rewrite !map_app, !filter_app. cbn [map filter]. change (i_key (item_of e)) with (e_key e).
+      rewrite Hk, keqb_refl. cbn [negb]. rewrite (Hall b H2), (Hall a H1). reflexivity.
+    - apply find_entry_none in F. rewrite remove_key_notin by exact F. exact (Hall l F).
+  Qed.
+
+  Lemma normalize_abs (c c' : cache) lg n :
+    pre_inv c -> normalize c = (c', lg, n) ->
+    s_retrim (map item_of (rev (c_entries c))) (c_max_weight c) (c_max_size c) = (abs c', n, lg).
+  Proof.
+    intros (P1 & P2 & P3 & P4 & P5) Hn. unfold normalize in Hn. unfold s_retrim.
+    rewrite trim_evict by (rewrite sumw_rev; exact P3). rewrite sumw_rev, <- P2.
+    injection Hn as <- <- <-. unfold abs. cbn [c_entries c_max_weight c_max_size].
+    rewrite rev_involutive, !map_length, map_map. reflexivity.
+  Qed.
+
+  Lemma add_abs k v w (c c' : cache) lg n :
+    inv c -> small w -> add keqb k v w c = (c', lg, n) ->
+    s_add keqb k v w (abs c) = (abs c', n, lg).
+  Proof.
+    intros I Hw Ha. rewrite add_unfold in Ha.
+    destruct (add_mid_spec k v w c I Hw) as (P & He & Hmw & Hms).
+    pose proof (normalize_abs _ _ _ _ P Ha) as R. rewrite He, Hmw, Hms in R.
+    unfold s_add, abs at 1. cbn [s_items s_mw s_ms].
+    rewrite without_rev by exact (proj1 I). cbn [rev] in R. rewrite map_app in R. exact R.
+  Qed.
+
+  Lemma contains_abs k (c : cache) :
+    inv c -> lookup keqb k (s_items (abs c)) = option_map item_of (find_entry keqb k (c_entries c)).
+  Proof. intros I. unfold abs. cbn [s_items]. apply lookup_rev. exact (proj1 I). Qed.
+
+  Theorem step_refines c o c' r lg :
+    inv c -> op_small o -> step keqb c o = (c', r, lg) ->
+    s_step keqb (abs c) o = (abs c', r, lg).
+  Proof.
+    intros I Hs. pose proof (contains_abs) as CA.
+    destruct o; cbn [step s_step op_small] in *.
+    - destruct (add keqb k v w c) as [[c1 l1] n1] eqn:A. intros [= <- <- <-].
+      rewrite (add_abs _ _ _ _ _ _ _ I Hs A). reflexivity.
+    - unfold get. rewrite (CA k c I). destruct (find_entry keqb k (c_entries c)) as [e|] eqn:F; cbn [option_map].
+      + intros [= <- <- <-]. unfold abs. cbn [s_items s_mw s_ms c_entries c_max_weight c_max_size].
+        rewrite without_rev by exact (proj1 I). cbn [rev]. rewrite map_app. reflexivity.
+      + intros [= <- <- <-]. reflexivity.
+    - intros [= <- <- <-]. unfold peek. rewrite (CA k c I).
+      destruct (find_entry keqb k (c_entries c)); reflexivity.
+    - intros [= <- <- <-]. unfold contains. rewrite (CA k c I).
+      destruct (find_entry keqb k (c_entries c)); reflexivity.
+    - unfold remove. rewrite (CA k c I). destruct (find_entry keqb k (c_entries c)) as [e|] eqn:F; cbn [option_map].
+      + intros [= <- <- <-]. unfold abs. cbn [s_items s_mw s_ms c_entries c_max_weight c_max_size].
+        rewrite without_rev by exact (proj1 I). reflexivity.
+      + intros [= <- <- <-]. reflexivity.
+    - unfold remove_oldest, abs. cbn [s_items s_mw s_ms].
+      destruct (rev (c_entries c)) as [|e rest] eqn:R; intros [= <- <- <-].
+      + cbn [map]. rewrite R. reflexivity.
+      + cbn [map c_entries c_max_weight c_max_size]. rewrite rev_involutive. reflexivity.
+    - intros [= <- <- <-]. unfold get_oldest, abs. cbn [s_items].
+      destruct (rev (c_entries c)); reflexivity.
+    - intros [= <- <- <-]. unfold keys, abs. cbn [s_items]. rewrite map_map. reflexivity.
+    - intros [= <- <- <-]. unfold len, abs. cbn [s_items]. rewrite map_length, rev_length. reflexivity.
+    - intros [= <- <- <-]. unfold weight, abs. cbn [s_items]. rewrite total_items, sumw_rev.
+      destruct I as (_ & -> & _). reflexivity.
+    - unfold resize. destruct (z_neg ms); [intros [= <- <- <-]; reflexivity|].
+      destruct (normalize _) as [[c1 l1] n1] eqn:Hn. intros [= <- <- <-].
+      pose proof (normalize_abs _ _ _ _ (resize_mid_pre mw (z_to_N ms) c I Hs) Hn) as R.
+      cbn [c_entries c_max_weight c_max_size] in R. unfold abs at 1. cbn [s_items]. rewrite R. reflexivity.
+    - intros [= <- <- <-]. unfold abs. cbn [s_items s_mw s_ms c_entries c_max_weight c_max_size map rev].
+      rewrite map_map, <- map_rev, rev_involutive. reflexivity.
+    - unfold contains_or_add, contains. rewrite (CA k c I).
+      destruct (find_entry keqb k (c_entries c)); cbn [option_map]; [intros [= <- <- <-]; reflexivity|].
+      destruct (add keqb k v w c) as [[c1 l1] n1] eqn:A. intros [= <- <- <-].
+      rewrite (add_abs _ _ _ _ _ _ _ I Hs A). reflexivity.
+    - unfold peek_or_add, peek. rewrite (CA k c I).
+      destruct (find_entry keqb k (c_entries c)); cbn [option_map]; [intros [= <- <- <-]; reflexivity|].
+      destruct (add keqb k v w c) as [[c1 l1] n1] eqn:A. intros [= <- <- <-].
+      rewrite (add_abs _ _ _ _ _ _ _ I Hs A). reflexivity.
+  Qed.
+
+  Theorem run_refines ops : forall c c' tr,
+    inv c -> Forall op_small ops -> run keqb c ops = (c', tr) ->
+    s_run keqb (abs c) ops = (abs c', tr).
+  Proof.
+    induction ops as [|o ops IH]; intros c c' tr I Hs; cbn [run s_run].
+    - intros [= <- <-]; reflexivity.
+    - destruct (step keqb c o) as [[c1 r1] l1] eqn:S. destruct (run keqb c1 ops) as [c2 tr2] eqn:R.
+      intros [= <- <-]. inversion Hs as [|? ? H1 H2]; subst.
+      rewrite (step_refines _ _ _ _ _ I H1 S). rewrite (IH _ _ _ (step_inv _ _ _ _ _ I H1 S) H2 R). reflexivity.
+  Qed.
+
+  Lemma new_abs mw ms c : new mw ms = Some c -> s_new mw ms = Some (abs c).
+  Proof. unfold new, s_new. destruct (z_neg ms); [discriminate|]. intros [= <-]. reflexivity. Qed.
 End Proofs.
